@@ -269,3 +269,48 @@ Lemma pevents_time_source cs fuel c i inp t acc :
 Proof.
   intros Hs Hb Ht. cbn [pevents]. destruct (pe_chain _ _ _) as [r b]. simpl in *. subst b. rewrite Hs, Ht. reflexivity.
 Qed.
+
+(** ** every request of a block is monotone in the update time
+    The blocks of two updates of one component have the same shape (same pulls of the same inputs, the same source
+    outputs / buffering adapters reached, recursively through pull-based components), and every time in the later
+    block is at or after the corresponding time of the earlier one.  Hence along every path from a consumer to a
+    source the requests are non-decreasing — the hypothesis of C09 / C11 / C12 — as long as the path is read by ONE
+    consumer (known finding F16 is the case of a pull-based component shared by consumers with different steps). *)
+Definition ev_le (e e' : ev) : Prop :=
+  match e, e' with
+  | EU c t, EU c' t' => c = c' /\ t <= t'
+  | EP c i t, EP c' i' t' => c = c' /\ i = i' /\ t <= t'
+  | ES c o t, ES c' o' t' => c = c' /\ o = o' /\ t <= t'
+  | EB c i t, EB c' i' t' => c = c' /\ i = i' /\ t <= t'
+  | _, _ => False
+  end.
+
+Lemma pevents_list_mono (rec rec' : nat -> input -> list ev -> list ev) :
+  (forall k x a a', Forall2 ev_le a a' -> Forall2 ev_le (rec k x a) (rec' k x a')) ->
+  forall ins k a a', Forall2 ev_le a a' -> Forall2 ev_le (pevents_list rec k ins a) (pevents_list rec' k ins a').
+Proof.
+  intros Hrec. induction ins as [|x ins IH]; intros k a a' H; simpl; [exact H|]. apply IH. apply Hrec. exact H.
+Qed.
+
+Lemma pevents_mono cs fuel : forall c i inp t t' a a',
+  t <= t' -> Forall2 ev_le a a' -> Forall2 ev_le (pevents fuel cs c i inp t a) (pevents fuel cs c i inp t' a').
+Proof.
+  induction fuel as [|fuel IH]; intros c i inp t t' a a' Ht Ha; simpl; [exact Ha|].
+  destruct (pe_chain_mono (i_chain inp) (init_of cs (i_src inp)) t t' Ht) as [M1 M2].
+  destruct (pe_chain (i_chain inp) (init_of cs (i_src inp)) t) as [r b].
+  destruct (pe_chain (i_chain inp) (init_of cs (i_src inp)) t') as [r' b']. simpl in M1, M2. subst b'.
+  assert (A1 : Forall2 ev_le (EP c i t :: a) (EP c i t' :: a')) by (constructor; [simpl; auto|exact Ha]).
+  destruct (is_static_src cs (i_src inp)); [constructor; [simpl; auto|exact A1]|].
+  destruct b; [constructor; [simpl; auto|exact A1]|].
+  destruct (is_time cs (fst (i_src inp))); [constructor; [simpl; auto|exact A1]|].
+  apply pevents_list_mono.
+  - intros k x b0 b0' Hb. apply IH; assumption.
+  - constructor; [simpl; auto|exact A1].
+Qed.
+
+Lemma ublock_mono cs c t t' : t <= t' -> Forall2 ev_le (ublock cs c t []) (ublock cs c t' []).
+Proof.
+  intros Ht. unfold ublock. apply pevents_list_mono.
+  - intros k x a a' Ha. apply pevents_mono; assumption.
+  - constructor; [simpl; auto|constructor].
+Qed.
